@@ -1586,6 +1586,12 @@ def _memchr(ex, p, c, n):
     return 0
 
 
+def _strcpy(ex, d, s_):
+    n = _strlen(ex, s_)
+    ex.memcpy(d, s_, n + 1, 'strcpy')
+    return d
+
+
 def _abort(ex, *a):
     raise PathEnd()
 
@@ -1647,5 +1653,5 @@ def _sprintf(ex, dst, fmt, *args):
 LIBC = {
     'strlen': _strlen, 'strcmp': _strcmp, 'strncmp': _strncmp, 'memcmp': _memcmp,
     'memcpy': _memcpy, 'memmove': _memmove, 'memset': _memset, 'memchr': _memchr,
-    'abort': _abort, 'sprintf': _sprintf,
+    'abort': _abort, 'sprintf': _sprintf, 'strcpy': _strcpy,
 }
